@@ -300,5 +300,8 @@ func (m *Menu) reset() {
 func (m *Menu) Reset() {
 	m.menu = [][2]string{}
 	m.sink = false
+	m.browse = BrowseConfig{}
+	m.canNext = false
+	m.canPrevious = false
 	m.reset()
 }
